@@ -236,22 +236,26 @@ theorem function_code_starts_with_addFuncScope (t : Nat) (b : List Instr) (gs gs
 
 /-- A call in tail position to the function's own name is compiled either as an ordinary
 call (when the number of arguments does not fit the known template: fix of C02-K5) or as a
-self tail call, which ends with `goto 0` after leaving every scope opened since the function
+self tail call, which (behind a guard that checks that the name still denotes the running
+function, fix C09-02) jumps with `goto 0` after leaving every scope opened since the function
 was entered, the function scope included: the next iteration runs `AddFuncScope` again and
-gets a fresh scope (fix fc05fc7). -/
+gets a fresh scope (fix fc05fc7); behind the jump sits the ordinary call the guard skips to. -/
 theorem self_tail_call_reenters_at_zero (isFn : Nat → Bool) (c : Ctx) (h : String) (args : List Expr)
     (hc : (c.tail && h == c.funcname) = true) (gs gs' : GS) (code : List Instr) (t : Bool)
     (hr : (compile isFn c (.call (.sym h) args)).run gs = .ok ((code, t), gs')) :
     code = [.callExpr (.sym h) args] ∨
-    ∃ argcode, code = argcode ++ [.prepareCall h args.length] ++ List.replicate (c.scopes + 1) .removeScope ++ [.goto 0] := by
+    ∃ argcode, code = [.tailGuard h (argcode.length + c.scopes + 4)] ++ argcode ++ [.prepareCall h args.length] ++
+        List.replicate (c.scopes + 1) .removeScope ++ [.goto 0, .callExpr (.sym h) args] := by
   have key : ∀ (b : Bool) (f : Option FnObj),
       (if b = true then (do
           let code ← compileCallArgs isFn { c with tail := false } f 0 args
-          pure (code ++ [.prepareCall h args.length] ++ List.replicate (c.scopes + 1) .removeScope ++ [.goto 0], c.tail)
+          pure ([.tailGuard h (code.length + c.scopes + 4)] ++ code ++ [.prepareCall h args.length] ++
+                List.replicate (c.scopes + 1) .removeScope ++ [.goto 0, .callExpr (.sym h) args], c.tail)
           : G (List Instr × Bool))
         else pure ([.callExpr (.sym h) args], c.tail)).run gs = .ok ((code, t), gs') →
       code = [.callExpr (.sym h) args] ∨
-      ∃ argcode, code = argcode ++ [.prepareCall h args.length] ++ List.replicate (c.scopes + 1) .removeScope ++ [.goto 0] := by
+      ∃ argcode, code = [.tailGuard h (argcode.length + c.scopes + 4)] ++ argcode ++ [.prepareCall h args.length] ++
+        List.replicate (c.scopes + 1) .removeScope ++ [.goto 0, .callExpr (.sym h) args] := by
     intro b f hb
     cases b with
     | false =>
